@@ -24,6 +24,28 @@ CLAIMED = {
             "key 0 are outside the domain.", "DESIGN.md §3 C02"),
 }
 
+SIM_NOTE = ("Trusts the scenario interpreter harness/m_sim.c, the trace oracles in pbt/simtrace.py (soundness rules in "
+            "DESIGN.md par. 2.1), Hypothesis and the clang sanitizers; thread-free and deterministic (fork per case, ASLR off).")
+SIM_TECH = ("property-based testing: Hypothesis-generated simulation scenarios (processes with scripts + dispatcher "
+            "commands, ties on simulated instants by construction) run against the real library; ")
+for _pid, _what in {
+    "C04": "oracle = ledger of notifications per process (timers must fire, everything else may be delivered once), exact hold times, quiescence predicates",
+    "C05": "oracle = holder model from what callers were told vs held_by_process/in_use/available after every event",
+    "C06": "oracle = validity predicate over the history: nobody who must not be overtaken is still waiting when a waiter is served",
+    "C07": "oracle = per-process holding model (exact after every event, ranges while an acquisition is in flight), victim priority and notification",
+    "C08": "oracle = end-of-instant / quiescence predicate: nobody blocked while its demand can be met",
+    "C09": "oracle = lifecycle predicates at every process end (waiter codes and timing, holdings, residual events, status, exit value, restart state)",
+    "C10": "oracle = how the executor child ended under ASan+UBSan with the shipped assertion level (report, signal, library abort)",
+    "C11": "oracle = level == sum(put) - sum(get) counting in-flight partial transfers, after every event",
+    "C12": "oracle = sequence / priority-map model of queue contents, exact delivery order, handles, positions",
+    "C13": "oracle = harness-evaluated predicate ground truth at explicit, forwarded (signal tap) and post-operation signal points",
+    "C14": "oracle = recorded history vs end-of-instant trajectory per recording window; exact Fraction time average",
+}.items():
+    CLAIMED[_pid] = (SIM_TECH + _what,
+                     "Search, not proof: generated scenarios executed against the real code; the property's predicate is "
+                     "evaluated on the observed history; held on everything explored.",
+                     SIM_NOTE, "DESIGN.md par. 2 and par. 3 " + _pid)
+
 NOT_YET = "check not built yet in this session (work in progress; see DESIGN.md §3 for the planned check)"
 
 
